@@ -219,6 +219,67 @@ def long_intervals(ctx):
         ctx.count("long_interval_runs")
 
 
+LADDER_MAX_CAP = 429496729   # (2^32 - 1) // 10: up to this cap `steps_allowed *= 10` (a C `unsigned`) cannot wrap
+
+
+def retry_ladder(ctx):
+    """(caps up to LADDER_MAX_CAP: beyond it the implementation's 32-bit product wraps and it tries extra, smaller values
+    - e.g. 705032704 for max_step = 850898882 - which the model over unbounded naturals does not describe; recorded as an
+    observation in DESIGN.md, not a violation: every attempt still stays below the cap and failure is still reported as NaN)
+    the `mxstep` values the simulator tries, against the Lean `mxstepLadder`: `odeint` is replaced by a stub that records
+    `mxstep` and reports failure (every attempt, or every attempt below a threshold), for caps around every rung; a run
+    whose attempts all fail must come back as NaN rows, one that succeeds at rung k must stop there and report numbers."""
+    import io
+    import sys
+    import bioscrape.simulator as S
+    from bioscrape.simulator import DeterministicSimulator, ModelCSimInterface
+    spec = {"species": ["A"], "reactions": [{"reactants": ["A"], "products": [], "prop": {"type": "massaction", "k": "k"}}],
+            "params": {"k": 1.0}, "ic": {"A": 1.0}}
+    caps = [1, 100, 499, 500, 501, 4999, 5000, 5001, 20000, 49999, 50000, 50001, 499999, 500000, 500001, 5000000, 123456789]
+    caps += [min(int(ctx.rng.randint(1, 10 ** ctx.rng.randint(2, 9))), LADDER_MAX_CAP) for _ in range(8 if ctx.quick() else 200)]
+    model = driver_batch([{"op": "ladder", "cap": c} for c in caps])
+    T = np.linspace(0, 1, 3)
+    real = S.odeint
+    for cap, ans in zip(caps, model):
+        want = ans["ladder"]
+        for succeed_at in (None, want[len(want) // 2]):
+            case = {"spec": spec, "cap": cap, "first_successful_mxstep": succeed_at}
+            ctx.begin_case(case)
+            calls = []
+
+            def stub(f, x0, t, **kw):
+                calls.append(int(kw["mxstep"]))
+                if succeed_at is not None and kw["mxstep"] >= succeed_at:
+                    return real(f, x0, t, **kw)
+                return np.zeros((len(t), len(x0))), {"message": "Excess work done on this call (perhaps wrong Dfun type)."}
+            M = build_model(spec)
+            S.odeint = stub
+            err = sys.stderr
+            sys.stderr = io.StringIO()
+            try:
+                sim = DeterministicSimulator()
+                sim.py_set_mxstep(cap)
+                itf = ModelCSimInterface(M)
+                itf.py_prep_deterministic_simulation()
+                rows = np.array(sim.py_simulate(itf, T.copy()).py_get_result())
+            finally:
+                sys.stderr = err
+                S.odeint = real
+            ctx.evaluated()
+            expect = want if succeed_at is None else want[:want.index(succeed_at) + 1]
+            if calls != expect:
+                ctx.violation("det/retry-ladder", "max_step = %d, first success at %s: mxstep values tried %s, the model's ladder %s" % (cap, succeed_at, calls, expect), case)
+                return
+            if succeed_at is None and not np.all(np.isnan(rows)):
+                ctx.violation("det/failure-reported-as-numbers", "max_step = %d, every attempt failed, rows %s" % (cap, rows.tolist()), case)
+                return
+            if succeed_at is not None and (np.any(np.isnan(rows)) or abs(rows[-1][0] - np.exp(-1.0)) > 1e-5):
+                ctx.violation("det/retry-success-lost", "max_step = %d, success at mxstep = %d, rows %s" % (cap, succeed_at, rows.tolist()), case)
+                return
+            ctx.count("retry_ladders_compared")
+            ctx.nontriv(("ladder", len(want), succeed_at is None))
+
+
 CONSERVATION_TOL = 1e-9     # relative; LSODA preserves linear invariants to rounding (largest drift seen on the unchanged tree: 1.3e-12 over 1200 laws)
 CONS_SEEN = [0.0]
 
@@ -343,6 +404,7 @@ def run(ctx):
     tight_tolerances_on_a_coarse_grid(ctx)
     for i in range(n):
         one(ctx, ctx.rng, linear=(i % 2 == 0))
+    retry_ladder(ctx)          # after the random part: keeps the random stream of the runs above
     ctx.count("largest_relative_drift_of_a_conserved_combination_x1e15", int(CONS_SEEN[0] * 1e15))
 
 
